@@ -92,10 +92,15 @@ func main() {
 	}
 	var progs []*prog
 	var eprogs []*emitted.Program
-	for i, ds := range sets {
+	// every definition set is generated twice: plainly and with Params.Debug (the -debug flag)
+	for i2 := 0; i2 < 2*len(sets); i2++ {
+		i, ds := i2/2, sets[i2/2]
 		name := fmt.Sprintf("p%03d", i)
+		if i2%2 == 1 {
+			name += "d"
+		}
 		text := defs.SpecText(name, ds)
-		p := &prog{Program: &emitted.Program{Name: name, SpecText: text}, ds: ds}
+		p := &prog{Program: &emitted.Program{Name: name, SpecText: text, Debug: i2%2 == 1}, ds: ds}
 		var s *spec.Spec
 		var err error
 		var pan any
